@@ -11,3 +11,8 @@ try:
     DRIVERS['table'] = _conv.run_table
 except ImportError:
     pass
+try:
+    import genev as _genev
+    DRIVERS['genev'] = _genev.run_genev
+except ImportError:
+    pass
